@@ -33,7 +33,7 @@ namespace Givaro {
         else {
             for (i=0; i<sP; ++i) _domain.addin(R[i], P[i]);
         }
-        return R;
+        return setdegree(R);
     }
 
     template <class Domain>
@@ -66,7 +66,7 @@ namespace Givaro {
             // JGD 05.11.1999
             for (; i<sP; ++i) R[i] = P[i];
         }
-        return R;
+        return setdegree(R);
     }
 
     template <class Domain>
@@ -81,7 +81,7 @@ namespace Givaro {
             assign(R, P);
             _domain.add(R[0],P[0],Val);
         }
-        return R;
+        return setdegree(R);
     }
 
     template <class Domain>
@@ -96,7 +96,7 @@ namespace Givaro {
             assign(R, P);
             _domain.add(R[0],Val, P[0]);
         }
-        return R;
+        return setdegree(R);
     }
 
     template <class Domain>
@@ -109,7 +109,7 @@ namespace Givaro {
             _domain.assign(R[0],Val);
         } else
             _domain.addin(R[0],Val);
-        return R;
+        return setdegree(R);
     }
 
     template <class Domain>
@@ -161,7 +161,7 @@ namespace Givaro {
         size_t sP = P.size();
         size_t sR = R.size();
         if (sP == 0) return R;
-        if (sR == 0) { return neg(R,P); }
+        if (sR == 0) { return setdegree(neg(R,P)); }
         if (sR < sP)
             return setdegree( subin(R, P, P.begin(), P.end()) );
         else
@@ -192,7 +192,7 @@ namespace Givaro {
             for (i=0; i<sQ; ++i) _domain.sub(R[i], P[i], Q[i]);
             for (; i<sP; ++i) _domain.assign(R[i], P[i]);
         }
-        return R;
+        return setdegree(R);
     }
 
     template <class Domain>
@@ -207,7 +207,7 @@ namespace Givaro {
             assign(R, P);
             _domain.sub(R[0],P[0],Val);
         }
-        return R;
+        return setdegree(R);
     }
 
     template <class Domain>
@@ -220,7 +220,7 @@ namespace Givaro {
             _domain.neg(R[0],Val);
         } else
             _domain.subin(R[0],Val);
-        return R;
+        return setdegree(R);
     }
 
     template <class Domain>
@@ -236,7 +236,7 @@ namespace Givaro {
             neg(R, P);
             _domain.sub(R[0],Val, P[0]);
         }
-        return R;
+        return setdegree(R);
     }
 
     template <class Domain>
